@@ -7,7 +7,7 @@ rnd = int(sys.argv[1])
 root = os.path.join(os.path.dirname(os.path.abspath(__file__)), "..")
 out = "/tmp/mutant_prompts%d" % rnd
 os.makedirs(out, exist_ok=True)
-words = {2: "two", 4: "four", 6: "six", 8: "eight"}
+words = {2: "two", 4: "four", 6: "six", 8: "eight", 10: "ten"}
 for line in open(os.path.join(root, "properties.jsonl")):
     p = json.loads(line)
     pid = p["id"]
@@ -38,7 +38,7 @@ For EACH change deliver, under %(dl)s/<n>/ (n = 1, 2):
  - meta.json : {"property": "%(pid)s", "summary": one sentence, "mechanism": what the change does, "needs": what is required for the violation to manifest, "files": [changed files], "demo_dir": directory (relative to the repository root, "." for the root) the demo must be copied into, "existing_tests_pass": true, "demo_fails_with_patch": true, "demo_passes_without_patch": true, "commands": [the commands you ran to confirm]}.
 Never use `git stash` (the stash is shared between worktrees; use `git diff > file`, `git checkout -- .`, `git apply`). Leave %(wt)s clean (git checkout -- . ; remove untracked files) when you are done. In your final message summarise both changes in a few lines each and name the demo directory of each.
 
-IMPORTANT: %(nw)s seeded defects for this property already exist; yours must be DIFFERENT from all of them in mechanism AND in the clause / quantifier dimension they exercise. Work like this: first split the statement into its individual clauses and the quantifier into its dimensions (which kinds of inputs, types, histories, schedules, configurations it ranges over); note which clause x dimension combinations the existing ones touch; then choose two combinations they do NOT touch (for example: another file among the anchors, another option combination, another field kind or nesting shape, another entry point that the statement covers, a different position in a sequence, an error path instead of a success path, state that survives from one call to the next) and seed your defects there. The existing ones are:
+IMPORTANT: %(nw)s seeded defects for this property already exist; yours must be DIFFERENT from all of them in mechanism AND in the clause / quantifier dimension they exercise. Work like this: first split the statement into its individual clauses and the quantifier into its dimensions (which kinds of inputs, types, histories, schedules, configurations it ranges over); note which clause x dimension combinations the existing ones touch; then choose two combinations they do NOT touch (for example: another file among the anchors, another option combination, another field kind or nesting shape, another entry point that the statement covers, a different position in a sequence, an error path instead of a success path and its clean-up, state that survives from one call to the next or from one config type to the next when an object is reused, two API calls overlapping in time, a context cancelled at an unusual point, the interaction of two features or options that are each fine alone, unusual but legal type shapes such as named types, pointers to collections, embedded structs, deep nesting, maps with non-string keys, boundary values) and seed your defects there. The existing ones are:
 %(ex)s
 Also note: the repository in your worktree already contains many recent bug-fix commits (see `git log`); do not simply revert one of them.
 """ % {"wt": wt, "dl": dl, "pid": pid, "prop": json.dumps(p, indent=1), "nw": words.get(n, str(n)), "ex": "\n".join(" - " + e for e in existing)}
